@@ -72,12 +72,13 @@ theorem readHead_head (m n : Nat) (r : Bytes) (hm : m < 8) (hn : n < 2 ^ 64) :
           simp [readHead, UInt8.toNat_ofNat', h0, h1, h2, beBytes_length, this]
 
 mutual
-/-- well-formed: every length and integer fits the 64-bit argument of a CBOR head -/
+/-- well-formed: every length fits the 64-bit argument of a CBOR head; integers are those go-ipld-prime
+    can hold (int64, or uint64 as `plainUint`) -/
 def WF : Node → Prop
-  | .int i => -(2 ^ 64 : Int) ≤ i ∧ i < 2 ^ 64
+  | .int i => -(2 ^ 63 : Int) ≤ i ∧ i < 2 ^ 64
   | .str s => s.length < 2 ^ 64
   | .bytes b => b.length < 2 ^ 64
-  | .link c => c.length + 1 < 2 ^ 64
+  | .link c => c.length + 1 < 2 ^ 64 ∧ cidValid c = true
   | .list xs => xs.length < 2 ^ 64 ∧ WFL xs
   | .map kvs => kvs.length < 2 ^ 64 ∧ WFM kvs
   | _ => True
@@ -126,8 +127,9 @@ theorem decode_encode : ∀ (n : Node) (r : Bytes) (fuel : Nat), WF n → size n
         simp [Int.toNat_of_nonneg hpos]
       · rename_i hneg
         obtain ⟨ai, hh, _, _⟩ := readHead_head 1 (-1 - i).toNat r (by decide) (by omega)
+        have hlt : ¬ ((-1 - i).toNat ≥ 2 ^ 63) := by omega
         simp only [decodeF, hh]
-        simp
+        simp [hlt]
         omega
   | .float b, r, fuel, _, hf => by
     cases fuel with
@@ -156,12 +158,12 @@ theorem decode_encode : ∀ (n : Node) (r : Bytes) (fuel : Nat), WF n → size n
     | zero => simp [size] at hf
     | succ f =>
       obtain ⟨ai, hh, _, _⟩ := readHead_head 6 42 (head 2 (c.length + 1) ++ (0 :: c) ++ r) (by decide) (by decide)
-      obtain ⟨ai2, hh2, _, _⟩ := readHead_head 2 (c.length + 1) ((0 :: c) ++ r) (by decide) hwf
+      obtain ⟨ai2, hh2, _, _⟩ := readHead_head 2 (c.length + 1) ((0 :: c) ++ r) (by decide) hwf.1
       simp only [encode, List.append_assoc] at hh hh2 ⊢
       simp only [decodeF, hh]
       have h42 : ¬ ((42 : Nat) ≠ 42) := by decide
       simp only [List.cons_append] at hh2
-      simp [hh2]
+      simp [hh2, hwf.2]
   | .list xs, r, fuel, hwf, hf => by
     cases fuel with
     | zero => simp [size] at hf
